@@ -16,13 +16,13 @@ RULE = ("bounded-exhaustive bracket sequences: every sequence of N leaves from {
 ASSUMPTIONS = ["programs whose only issue is gates after a trailing unmatched prepare_all are not judged (statement ambiguous)",
                "termination of accepted programs is C08's clause: a step-budget overrun here is inconclusive for C12"]
 TIERS = {"quick": {"shards": 8, "budget_s": 55}, "thorough": {"shards": 16, "budget_s": 480}}
-REQUIRE = {"ref-accept": 500, "ref-reject:measure-without-prepare": 100, "ref-reject:gate-outside-subcircuit": 100,
+REQUIRE = {"object-assembled-programs": 2000, "ref-accept": 500, "ref-reject:measure-without-prepare": 100, "ref-reject:gate-outside-subcircuit": 100,
            "ref-reject:measure-in-loop-closes-earlier-prepare": 50, "states-compared": 500}
 
 
 def judge(case):
     prog = case_prog(case)
-    st, s = X.setup(prog)
+    st, s = X.setup(prog, assemble=bool(case.get("assemble")))
     if st != "ok":
         return st, [], None
     P = s.P
@@ -108,10 +108,16 @@ def process(ctx, case, seen, minimise_budget=120):
         if seen[key] > 3:
             rec.count("unminimised-repeat:" + clause)
             continue
-        small = minimise.minimise(prog, lambda p: clause in _clauses({"prog": p}), budget=minimise_budget)
-        small_case = {"prog": small}
+        base = {"assemble": True} if case.get("assemble") else {}
+        small = minimise.minimise(prog, lambda p: clause in _clauses(dict(base, prog=p)), budget=minimise_budget) if minimise_budget else prog
+        small_case = dict(base, prog=small)
         d2 = [x for x in judge(small_case)[1] if x[0] == clause]
-        rec.violation(sig("C12", clause, shape_features(small)), d2[0][1] if d2 else detail, small_case)
+        feats = shape_features(small)
+        if base:
+            feats = set(feats) | {"assembled-from-core-objects"}
+            if any(x[0] == "subcircuit_block" and any(y is not x and y[0] == "subcircuit_block" for y in sx.walk(x)) for x in sx.walk(small)):
+                feats.add("subcircuit-inside-subcircuit")
+        rec.violation(sig("C12", clause, feats), d2[0][1] if d2 else detail, small_case)
 
 
 def shape_features(prog):
@@ -205,6 +211,18 @@ def shard(ctx):
     rec.exhaustive = done_all
     rec.note("exhaustive_spaces", {"(leaves<=N, containers<=B, stride)": spaces, "complete": done_all,
                                    "meaning": "spaces with stride 1 were enumerated completely when complete is true"})
+    # nestings that only circuits assembled from core objects can have (subcircuit inside subcircuit, blocks of one
+    # kind inside each other, prepare/measure inside a subcircuit block): the same acceptance rule applies
+    k = 0
+    ostride = 8 if ctx.quick else 1
+    for prog in bracket.enumerate_object_programs(3, 2):
+        k += 1
+        if k % ostride or not ctx.mine(k // ostride):
+            continue
+        if rec.time_left() < (rec.deadline - rec.t0) * 0.1:
+            break
+        process(ctx, {"prog": prog, "assemble": True}, seen, minimise_budget=0)
+        rec.count("object-assembled-programs")
     # sampled deeper bracket sequences and misplaced prepare/measure in random executable programs
     rng = ctx.rng
     i = 0
